@@ -1446,9 +1446,11 @@ class SpaceManager(SharedSpaceOperations):
         define = True
         for space in self._get_subs(cells.parent, skip_self=False):
             c = space.cells[cells.name]
-            if (c is not cells and c.is_defined() and
-                    self.get_deriv_bases(c, defined_only=True)[0] is cells):
-                continue   # Skip when c's base is not cells
+            if c is not cells:
+                if c.is_defined():
+                    continue   # Skip when c is overridden in the sub space
+                if self.get_deriv_bases(c, defined_only=True)[0] is not cells:
+                    continue   # Skip when c is derived from another base
             space.clear_subs_rootitems()
             space.cells[cells.name].on_set_property(
                 flags, define, func, enable_cache
